@@ -112,7 +112,7 @@ class C19(Prop):
     props_file = "Props/C19.v"
     preamble = ("From Coq Require Import List ZArith QArith.\nImport ListNotations.\n"
                 "From PP Require Import Model.C19.\nOpen Scope Q_scope.\n")
-    n_cases = (45, 500)
+    n_cases = (60, 500)
     design_ref = "DESIGN.md §5 C19"
     level_text = (
         "Coq theorems (exact rational arithmetic, all node coordinates, any number of faces per "
@@ -234,7 +234,8 @@ class C19(Prop):
             if sm < 0.2:
                 case["scale_exp"] = [0, 0, 0]
             elif sm < 0.55 or twisted:
-                e = rng.randint(-20, 10)
+                # half of the isotropic rescalings are small (millimetre cells and below)
+                e = rng.randint(-20, -11) if rng.random() < 0.5 else rng.randint(-10, 10)
                 case["scale_exp"] = [e, e, e]
             elif sm < 0.8:
                 e = rng.randint(-10, 10)
@@ -284,6 +285,11 @@ class C19(Prop):
         """All comparisons are relative to the magnitude of the terms of the identity at hand
         (|sum - rhs| <= 1e-9 (sum |terms| + |rhs|)), so every grid is judged at its own scale."""
         dim, nc, nf = res["dim"], res["nc"], res["nf"]
+        for name in ("vol", "areas", "cc", "fc", "fnrm"):
+            flat = np.asarray(res[name], dtype=float).ravel()
+            if not np.all(np.isfinite(flat)):
+                i = int(np.argmin(np.isfinite(flat)))
+                return f"{name}: non-finite value {flat[i]} (flat index {i})"
         fr = lambda v: [F(x) for x in v]
         fc = [fr(p) for p in res["fc"]]
         nr = [fr(p) for p in res["fnrm"]]
